@@ -47,19 +47,24 @@ def commit_jobs(tier, prop, only=None):
 
 def post_jobs(tier, prop):
     js = []
-    for nlp, newn, pos in ([(2, 2, 0), (2, 2, 1), (2, 1, 2), (1, 1, 0)] if tier == 'quick' else [(a, b, c) for a in (0, 1, 2, 3) for b in (1, 2) for c in range(a + 1)]):
+    for nlp, newn, pos in ([(1, 2, 0), (1, 2, 1), (2, 1, 2), (1, 1, 0), (2, 1, 0), (0, 1, 0)] if tier == 'quick' else [(a, b, c) for a in (0, 1, 2, 3) for b in (1, 2) for c in range(a + 1)]):
         js.append(Job('%s/ncmpio_igetput_varm/iput/pending%d_records%d_at%d' % (prop, nlp, newn, pos), prop,
                       ['src/drivers/common/utils.c', 'src/drivers/common/convert_swap.m4', 'src/drivers/common/create_imaptype.c', 'src/drivers/common/error_mpi2nc.c', 'src/drivers/common/ncx.m4'],
-                      'C02_igetput.c', enforce='ncmpio_igetput_varm', replace=['ncmpio_pack_xbuf'], include_tus={'TU_i_getput_c': 'src/drivers/ncmpio/ncmpio_i_getput.m4'},
+                      'C02_igetput.c', enforce='ncmpio_igetput_varm', replace=['ncmpio_pack_xbuf'] + (['ncmpio_add_record_requests'] if newn > 1 else []), include_tus={'TU_i_getput_c': 'src/drivers/ncmpio/ncmpio_i_getput.m4'},
                       extra_src=MODEL, defines=['-DNLP=%d' % nlp, '-DNEWN=%d' % newn, '-DNEWPOS=%d' % pos], canaries=['record_request'] + (['appended_last'] if pos == nlp else []) + (['inserted_first'] if pos == 0 and nlp else []),
                       unwind=26, kind='bounded', timeout=600, mem_gb=12, solver=['--sat-solver', 'cadical'],
                       bound='insertion position %d; ' % pos + '%d pending lead puts; new high-level iput on a 1-D int variable with %d record(s); allocation granule NC_REQUEST_CHUNK = 4 (verification-only; library value 1024)' % (nlp, newn)))
+    for n, ws_ in ([(2, 0), (3, 1)] if tier == 'quick' else [(a, b) for a in (2, 3, 4, 5) for b in (0, 1)]):
+        js.append(Job('%s/ncmpio_add_record_requests/records%d_%s' % (prop, n, 'strided' if ws_ else 'contiguous'), prop,
+                      ['src/drivers/common/utils.c', 'src/drivers/common/convert_swap.m4', 'src/drivers/common/create_imaptype.c', 'src/drivers/common/error_mpi2nc.c', 'src/drivers/common/ncx.m4'],
+                      'C02_igetput.c', enforce='ncmpio_add_record_requests', include_tus={'TU_i_getput_c': 'src/drivers/ncmpio/ncmpio_i_getput.m4'}, extra_src=MODEL,
+                      defines=['-DH_addrec', '-DNEWN=%d' % n, '-DNLP=0', '-DWITH_STRIDE=%d' % ws_], canaries=(['strided_records', 'unit_stride'] if ws_ else ['contiguous_records']), unwind=26, kind='bounded', timeout=600, solver=['--sat-solver', 'cadical'],
+                      bound='%d records of a 2-D record variable (3 elements per record); first record and record stride symbolic' % n))
     return js
 
-# post_jobs (ncmpio_igetput_varm): cbmc ends with ERROR/out-of-memory on every instance tried (even with the insertion position enumerated); parked, not registered
+# post_jobs (ncmpio_igetput_varm): MiniSat ends with ERROR/out-of-memory; CaDiCaL decides one-record instances in 15 s; multi-record instances need
+# ncmpio_add_record_requests replaced by its contract (enforced separately)
 def jobs(tier, ws):
     # req_commit (commit_jobs): MiniSat needs > 7 min per obligation even on a 2-request queue; CaDiCaL (--sat-solver cadical) 1-2.5 min per instance
     import os
-    if os.environ.get('VERIF_PARKED'):
-        return post_jobs(tier, 'C02')
-    return cancel_jobs(tier, 'C02') + commit_jobs(tier, 'C02')
+    return cancel_jobs(tier, 'C02') + commit_jobs(tier, 'C02') + post_jobs(tier, 'C02')
